@@ -78,11 +78,29 @@ class Batch:
         self.ids, self.watchdog = ids, watchdog
 
 
+def random_graphs(ctx, n, docs, count, dangling=False):
+    """Seeded random graphs larger than TLC enumerates (same format, judged by the same oracle)."""
+    out = ctx.path('rand_n%d_d%d_c%d_%s.ndjson' % (n, docs, count, 'dang' if dangling else 'wf'))
+    if os.path.exists(out):
+        return out
+    shards = ctx.path('rand_shards.ndjson')
+    k = 8
+    open(shards, 'w').write(''.join(json.dumps({'shard': i}) + '\n' for i in range(k)))
+    args = ['-n', str(n), '-docs', str(docs), '-count', str((count + k - 1) // k), '-seed', str(ctx.seed)]
+    if dangling:
+        args += ['-dangling', '-wf=false']
+    files = vlib.run_worker(ctx, 'randgraph', shards, args, shards=k, prefix='randgen_n%d' % n)
+    with open(out, 'w') as w:
+        for f in files:
+            w.write(open(f).read())
+    return out
+
+
 def observe(ctx, batches):
     """Run the real code over all batches; returns observation files."""
     obsfiles = []
     for i, b in enumerate(batches):
-        cases = gen(ctx, *b.genset)
+        cases = random_graphs(ctx, *b.genset[1:]) if b.genset[0] == 'random' else gen(ctx, *b.genset)
         args = ['-layouts', ','.join(b.layouts), '-opts', ','.join(b.opts), '-rots', ','.join(str(r) for r in b.rots),
                 '-names', b.names, '-spell', b.spell, '-reps', str(b.reps), '-failsets', ','.join(b.failsets),
                 '-entry', b.entry, '-caches', b.caches, '-watchdog', b.watchdog]
@@ -193,10 +211,16 @@ def s1_batches(ctx, opts, skip_collide=False):
         return [Batch(G_N3_D3_WF, lay2, opts, rots[:2], reps=4, names=sd['names'], spell=sd['spell']),
                 Batch(G_N4_S_WF, ALL_LAYOUTS, opts, rots, reps=4, names=sd['names'], spell='varied'),
                 Batch(G_N4_SP_WF, ORDINARY[:3] + COLLIDERS[:2], opts, rots[:1], reps=2, names=sd['names'], spell=sd['spell']),
-                Batch(G_N4_SR_WF, ORDINARY[:3] + COLLIDERS[:2], opts, rots[1:2], reps=2, names='special', spell=sd['spell'])]
+                Batch(G_N4_SR_WF, ORDINARY[:3] + COLLIDERS[:2], opts, rots[1:2], reps=2, names='special', spell=sd['spell']),
+                Batch(('random', 14, 4, 3000), [a + '+' + b + '+' + c for a in ORDINARY[:4] for b in ('subdir', 'prefixdir') for c in ('sibling', 'remote')],
+                      opts, rots[:1], reps=2, names=sd['names'], spell='varied'),
+                Batch(('random', 24, 5, 600), ['sibling+subdir+parent+otherdir', 'remote+prefixfile+subsub+sibling'], opts, rots[1:2], reps=2,
+                      names='special', spell='varied')]
     few = [ALL_LAYOUTS[(ctx.seed + i) % len(ALL_LAYOUTS)] for i in (0, 3, 6)]
     return [Batch(G_N3_ALL_WF, ALL_LAYOUTS, opts, [sd['rot']], reps=3, names=sd['names'], spell=sd['spell']),
-            Batch(G_N4_S_WF, few, opts[:1], [(sd['rot'] + 5) % 12], reps=2, names=sd['names'], spell=sd['spell'])]
+            Batch(G_N4_S_WF, few, opts[:1], [(sd['rot'] + 5) % 12], reps=2, names=sd['names'], spell=sd['spell']),
+            Batch(('random', 10, 3, 240), [few[0] + '+' + few[1], few[2] + '+sibling'], opts, [(sd['rot'] + 2) % 12], reps=2,
+                  names=sd['names'], spell='varied')]
 
 
 def s1_mc(ctx):
@@ -242,6 +266,8 @@ def check_c04(ctx):
                    Batch(G_N4_S_WF, ALL_LAYOUTS, four, [sd['rot']], reps=1, names='special', spell=sd['spell']),
                    Batch(G_N3_D3_WF, ['sibling+subdir', 'parent+prefixdir'], four, [sd['rot']], reps=1),
                    Batch(G_N3_ALL_WF, ['sibling', 'subdir', 'remote'], four, [0, 1, 2, 3], reps=1, ids='abs,relfile,frag,reldir', watchdog='4s'),
+                   Batch(('random', 16, 4, 4000, True), ['sibling+subdir+parent', 'remote+prefixdir+otherdir'], four, [sd['rot']], reps=1, spell='varied'),
+                   Batch(('random', 40, 6, 500, True), ['sibling+subdir+parent+otherdir+remote'], four, [sd['rot']], reps=1, names='special', spell='varied'),
                    Batch(G_N4_S_WF, ['sibling'], ['000'], [sd['rot'] % 3], reps=1, ids='abs,relfile,frag', watchdog='4s')]
         mcs = [(G_N3_ALL_ANY, False, False, 'any_strict_full'), (G_N3_ALL_ANY, True, False, 'any_cont_full'),
                (G_N3_ALL_ANY, False, True, 'any_strict_skip'), (G_N3_ALL_ANY, True, True, 'any_cont_skip'),
@@ -250,7 +276,8 @@ def check_c04(ctx):
         batches = [Batch(G_N3_ALL_ANY, [ALL_LAYOUTS[ctx.seed % 8]], four, [sd['rot']], failsets=('none',),
                          reps=1, names=sd['names'], spell=sd['spell']),
                    Batch(G_N4_S_WF, [ALL_LAYOUTS[(ctx.seed + 3) % 8]], ['000', '110'], [sd['rot']], reps=1),
-                   Batch(G_N3_ALL_WF, ['sibling'], ['000', '010'], sorted({ctx.seed % 4, 3}), reps=1, ids='abs,relfile,frag,reldir', watchdog='4s')]
+                   Batch(G_N3_ALL_WF, ['sibling'], ['000', '010'], sorted({ctx.seed % 4, 3}), reps=1, ids='abs,relfile,frag,reldir', watchdog='4s'),
+                   Batch(('random', 14, 3, 300, True), ['sibling+subdir', 'parent+remote'], four, [sd['rot']], reps=1, spell='varied')]
         mcs = [(G_N3_ALL_ANY, False, False, 'any_strict_full'), (G_N3_ALL_ANY, True, True, 'any_cont_skip'),
                (G_N4_S_WF, False, False, 'N4S_strict_full')]
     rep = run_batches(ctx, batches, ['c04', 'c04work'], mcs, nontrivial=lambda o, v: v['cyclic'] or not v['wf'],
